@@ -101,12 +101,21 @@ fn child_run(args: &[String]) -> i32 {
             let r = &log[i];
             if r.counted {
                 let mut n = 0;
+                // offsets/lengths of the WAL data writes this event stands for (one per entry, in entry order)
+                let mut writes: Vec<Value> = Vec::new();
                 if r.kind == "uring_submit" {
                     n = r.len;
+                    let mut j = i + 1;
+                    while j < log.len() && log[j].kind == "uring_write" {
+                        writes.push(json!([log[j].off, log[j].len]));
+                        j += 1;
+                    }
+                } else if r.kind == "write" {
+                    writes.push(json!([r.off, r.len]));
                 }
                 let base = std::path::Path::new(&r.path).file_name().map(|x| x.to_string_lossy().into_owned()).unwrap_or_default();
                 let wal = !base.is_empty() && base.chars().all(|c| c.is_ascii_digit());
-                evs.push(json!({"seq": r.seq, "kind": r.kind, "n": n, "wal": wal}));
+                evs.push(json!({"seq": r.seq, "kind": r.kind, "n": n, "wal": wal, "writes": writes}));
             }
             i += 1;
         }
@@ -308,6 +317,8 @@ pub fn main(args: &[String]) -> i32 {
             // WAL data writes of the operation the crash falls into: how many there are and how many were made
             // before the process died (entries of an io_uring submission: the ones selected by the mask)
             let (mut w_total, mut w_done) = (0u64, 0u64);
+            // [offset, length, made before the crash] of every WAL data write of that operation, in order
+            let mut op_writes: Vec<Value> = Vec::new();
             if let Some(j) = marks_seq.iter().position(|&ms| ms >= k) {
                 let lo = if j == 0 { 0 } else { marks_seq[j - 1] };
                 let hi = marks_seq[j];
@@ -322,6 +333,9 @@ pub fn main(args: &[String]) -> i32 {
                         if sq < k {
                             w_done += 1;
                         }
+                        if let Some(w) = e["writes"].as_array().and_then(|a| a.first()) {
+                            op_writes.push(json!([w[0], w[1], sq < k]));
+                        }
                     } else if kind == "uring_submit" {
                         let n = e["n"].as_u64().unwrap_or(0);
                         w_total += n;
@@ -330,12 +344,16 @@ pub fn main(args: &[String]) -> i32 {
                         } else if sq == k {
                             w_done += (m & ((1u64 << n.min(63)) - 1)).count_ones() as u64;
                         }
+                        for (j, w) in e["writes"].as_array().cloned().unwrap_or_default().iter().enumerate() {
+                            let made = sq < k || (sq == k && (m >> j) & 1 == 1);
+                            op_writes.push(json!([w[0], w[1], made]));
+                        }
                     }
                 }
             }
             lines.push(json!({"ev":"reset","g":format!("{}@{}m{}", beh.id, k, m),"mode":beh.cfg.mode,"pe":beh.cfg.pe.max(1),"mb":g.max_batch,
                                "backend":beh.cfg.backend,"geom": if g.tiny {"tiny"} else {"real"},"crash_at":k,"mask":m,"child_rc":rc,
-                               "op_writes_total":w_total,"op_writes_done":w_done}).to_string());
+                               "op_writes_total":w_total,"op_writes_done":w_done,"op_writes":op_writes}).to_string());
             let mut pending: Vec<String> = Vec::new();
             for e in evs.iter() {
                 if e["ev"] == "note" && e["what"] == "opstart" {
